@@ -655,6 +655,10 @@ func (rm RoundingMode) round(shift, neg bool, sig uint128, exp int16, trunc int8
 			if digit >= 5 {
 				adjust = 1
 			}
+
+			if trunc == -1 && digit == 5 {
+				adjust = 0
+			}
 		case ToZero:
 			if trunc == -1 && digit == 0 {
 				adjust = -1
